@@ -173,18 +173,12 @@ def _uses_uf(e):
         if i in seen:
             continue
         seen.add(i)
-        if i in _UF_CACHE:
-            if _UF_CACHE[i]:
-                return True
-            continue
         if z3.is_app(x):
             d = x.decl()
             if d.kind() == z3.Z3_OP_UNINTERPRETED and x.num_args() > 0 and d.name().startswith("uf_"):
-                _UF_CACHE[e.get_id()] = True
                 return True
             todo.extend(x.children())
-    _UF_CACHE[e.get_id()] = False
-    return False
+    return False  # (no caching: z3 reuses AST ids after garbage collection)
 
 
 # ----------------------------------------------------------------------------------------------------------------- real engines
